@@ -3,7 +3,7 @@ import os
 import engine as E
 from props.fanout_common import tla_set, behaviours
 
-INVS = "AtMostOneInput PipelineOwned NotifyPaired PullSane"
+INVS = "AtMostOneInput PipelineOwned NotifyPaired PullSane PushSane"
 
 CFGS = {
     # stage 1: every kind of input and output, no relay pull
@@ -12,6 +12,13 @@ CFGS = {
     # relay pull: retry budget n / forever / never, auto-stop after a window / never / immediately
     "P1": dict(RtmpPubs=["p1"], RtspPubs=[], CustPubs=[], PsPubs=[], RtmpSubs=["s1"], FlvSubs=[],
                PullRetry=1, PullAuto=1, PullEnabled=True, Hook=False),
+    # relay push: one / two targets, RTMP and RTSP publishers, URL parameters of several lengths
+    "U1": dict(RtmpPubs=["p1", "p2"], RtspPubs=[], CustPubs=["k1"], PsPubs=[], RtmpSubs=[], FlvSubs=[],
+               PullRetry=0, PullAuto=-1, PullEnabled=False, Hook=False, Push=["t1"], ParamLen=300),
+    "U2": dict(RtmpPubs=["p1"], RtspPubs=["q1"], CustPubs=[], PsPubs=[], RtmpSubs=[], FlvSubs=[],
+               PullRetry=0, PullAuto=-1, PullEnabled=False, Hook=False, Push=["t1", "t2"], ParamLen=1000),
+    "U3": dict(RtmpPubs=["p1"], RtspPubs=[], CustPubs=[], PsPubs=[], RtmpSubs=[], FlvSubs=[],
+               PullRetry=0, PullAuto=-1, PullEnabled=False, Hook=False, Push=["t1"], ParamLen=70000),
     # small pull configurations whose whole state graph is replayed (edge cover)
     "P0": dict(RtmpPubs=[], RtspPubs=[], CustPubs=[], PsPubs=[], RtmpSubs=["s1"], FlvSubs=[],
                PullRetry=1, PullAuto=-1, PullEnabled=True, Hook=False),
@@ -44,6 +51,8 @@ def write_cfg(cid, mode, max_tick, max_att):
     lines.append("  HookOn = %s" % ("TRUE" if c.get("Hook", True) else "FALSE"))
     lines.append("  ShutdownEnabled = %s" % ("TRUE" if c.get("Shutdown", False) else "FALSE"))
     lines.append("  ProbeMsgs = %d" % (2 if c.get("Outputs", False) else 1))
+    lines.append("  PushTargets = %s" % tla_set(c.get("Push", [])))
+    lines.append("  ParamLen = %d" % c.get("ParamLen", 0))
     if mode == "trace":
         lines.append("  PipeComps <- %s" % ("PipeAll" if c.get("Outputs", False) else ("PipeHook" if c.get("Hook", True) else "PipeNone")))
     lines.append("  MaxTick = %d" % max_tick)
@@ -69,7 +78,8 @@ def drv_cfg(cid):
     c = CFGS[cid]
     return {"rtmpPubs": c["RtmpPubs"], "rtspPubs": c["RtspPubs"], "custPubs": c["CustPubs"], "psPubs": c["PsPubs"],
             "rtmpSubs": c["RtmpSubs"], "flvSubs": c["FlvSubs"], "pullRetry": c["PullRetry"],
-            "pullAutoMs": (-1 if c["PullAuto"] < 0 else c["PullAuto"] * 700), "hook": c.get("Hook", True), "outputs": c.get("Outputs", False), "leak": 0}
+            "pullAutoMs": (-1 if c["PullAuto"] < 0 else c["PullAuto"] * 700), "hook": c.get("Hook", True), "outputs": c.get("Outputs", False), "leak": 0,
+            "pushTargets": c.get("Push", []), "paramLen": c.get("ParamLen", 0)}
 
 
 def signature(r):
